@@ -135,6 +135,18 @@ theorem clipCells_scalar (n : Nat) (data cs : List Nat) (h : clipCells n data = 
         · exact ih _ _ hr c h
     · cases h
 
+/-- the scalar predicate is constant on every 0x800-aligned block: 0xD800, 0xE000 and 0x110000 are multiples of 0x800 -/
+theorem scalar_block_constant (v : Nat) : isScalar v = isScalar (v / 2048 * 2048) := by
+  have h1 := isScalar_iff v
+  have h2 := isScalar_iff (v / 2048 * 2048)
+  apply Bool.eq_iff_iff.mpr
+  rw [h1, h2]
+  omega
+
+theorem asU32_nat (v : Nat) (h : v < 4294967296) : asU32 (v : Int) = v := by
+  unfold asU32
+  omega
+
 end IcyVerif.Uni
 
 namespace IcyVerif.Font
